@@ -130,6 +130,42 @@ CHECKS = {
             "process; the PYTHONHASHSEED=0 sequential build is the reference (validated by "
             "single-program fresh processes).",
             "3/C20"),
+    'C13': ("denotational reference model (lazy sequences, no sc3 import) compared with the real "
+            "patterns on 64-value prefixes and end positions; sibling streams consumed under a "
+            "random alternating schedule; deep vars() snapshots of every pattern node; blame by "
+            "smallest failing sub-expression",
+            "Runtime monitoring of seeded typed pattern expressions up to depth 5 over every class "
+            "of the quantifier, driven through iter/next, Stream.next, the embed generator or all().",
+            "Trusted: vf/model_patterns.py (written from the SuperCollider help files; deliberate "
+            "port differences listed in its header); dyadic numbers so float operations are exact.",
+            "3/C13"),
+    'C15': ("lifted-versus-direct evaluation of every introspected operator entry point (138 "
+            "AbstractObject methods, 116 decorated builtins) over 16 operand kinds on either side; "
+            "numeric law contracts on the kernels; introspective scan for operator methods hidden "
+            "by instance attributes",
+            "Runtime monitoring: the composed object's evaluation is compared (values and exception "
+            "types) with the plain selector applied to the operands' known values; range/inverse "
+            "laws sampled on in-domain arguments.",
+            "Trusted: the selector reported by a probe object applied to plain numbers is the numeric "
+            "meaning; combination rules in vf/c15_kinds.py; tolerances 4 ulp / 1e-12 / 1e-9.",
+            "3/C15"),
+    'C16': ("bitmap reference model per partition accepting any correct answer, compared after "
+            "every operation with the allocator's answers and blocks(); node-id sliding-window "
+            "distinctness and range model across the wrap-around",
+            "Runtime monitoring of seeded alloc/free/double-free/unknown-free histories on the "
+            "allocator and through the bus/buffer constructors for client ids 0-31 and max_logins 1-8.",
+            "Trusted: vf/model_alloc.py (150 lines, self-test); the per-client partition convention "
+            "and 26-bit id ranges recomputed from the option values.",
+            "3/C16"),
+    'C17': ("trace checker over decoded traffic (NRT score and patched RT _send): per-method "
+            "expected messages, server-command grammar, id ledger fed by wrapping the server's "
+            "allocators, bind() block atomicity with injected exceptions",
+            "Runtime monitoring of random histories of 3-90 operations over synths, groups, buffers "
+            "and buses with every constructor form, add action and target form, inside and outside "
+            "bind() blocks (40 % raising).",
+            "Trusted: vf/cmdref.py and vf/model_cmds.py (transcribed from the Server Command "
+            "Reference and class documentation), vf/osc.py.",
+            "3/C17"),
 }
 
 NOT_YET = "check not built yet in this session (work in progress); runtime monitoring is applicable"
